@@ -16,7 +16,9 @@ import (
 // ForceCase: a small program run once (so that every task is cached), then forced.
 type ForceCase struct {
 	// ProjDir names the directory holding the spokfile ("" = proj)
-	ProjDir string   `json:"proj_dir,omitempty"`
+	ProjDir string `json:"proj_dir,omitempty"`
+	// Invoke: how spok is pointed at the project (sandbox.Box.Invoke)
+	Invoke  string   `json:"invoke,omitempty"`
 	NTasks  int      `json:"ntasks"`
 	Deps    [][2]int `json:"deps"`     // i depends on j (j > i)
 	FileDep []bool   `json:"file_dep"` // per task
@@ -35,6 +37,7 @@ var forceNames = []string{"alpha", "bravo", "charlie"}
 func genForce(t *rapid.T) ForceCase {
 	c := genForceBody(t)
 	c.ProjDir = genProjDir(t)
+	c.Invoke = genInvoke(t)
 	return c
 }
 
@@ -102,7 +105,7 @@ func (c ForceCase) closure() map[int]bool {
 }
 
 func execForce(s *ev.Shard, b *sandbox.Box, c ForceCase) *rp.Fail {
-	if err := b.ResetAs(c.ProjDir); err != nil {
+	if err := b.ResetFor(c.ProjDir, c.Invoke); err != nil {
 		return &rp.Fail{Sig: "harness", Msg: err.Error()}
 	}
 	src := c.source()
